@@ -1,4 +1,5 @@
 import CCT.Lemmas.Dict
+import CCT.Lemmas.SignThreads
 import CCT.Model.Signing
 import CCT.Props.C02
 /-!
@@ -170,6 +171,116 @@ theorem wrap_sign_verify (C : Crypto) (v : J) (seed : Bytes) (hs : seed.length =
   · refine ⟨[pubHex C.toCryptoFns seed], by simp, by simp, ?_⟩
     intro k hk; simp at hk; subst hk
     exact ⟨_, mem_dictSet_self _ _ _, own_entry_counts C seed hs v _ (by simp)⟩
+
+-- ---------------------------------------------------------------------------------------------------------------------
+-- several signers at work on one envelope at the same time (Model/SignThreads.lean)
+
+/-- one signer thread run alone does what `sign_signable` does to the signature map: `entries[pubhex] = entry` -/
+theorem signer_alone (sg : Signer) (sigs0 : List (PStr × J)) (p0 : J) (ts : Nat → SLocal) (h0 : (ts 0).pc = 0) :
+    (runSigners stepInPlace (fun _ => sg) ⟨sigs0, p0⟩ ts [0, 0, 0]).1.sigs = dictSet sigs0 sg.key (sg.entryOf p0) := by
+  simp [runSigners, stepInPlace, h0]
+
+/-- the signer thread of a key is the model of `sign_signable` with that key (same index, same entry) -/
+theorem signerOf_is_sign_signable (C : CryptoFns) (seed : Bytes) (signed : J) :
+    (signerOf C seed).key = pubHex C seed ∧ (signerOf C seed).entryOf signed = sigEntry C seed signed := ⟨rfl, rfl⟩
+
+/-- **signing touches only the signer's own entry — also when signers run concurrently.**  Any family of signer threads started on one shared envelope,
+under *every* schedule (any interleaving of their reads, computations and stores, threads finished or not): the payload is untouched; every thread that has
+finished finds, under its key id, the entry it computed (when signers filing under one key id compute one entry — e.g. distinct keys, or the same key
+twice); every index that is no signer's key id holds what it held before. -/
+theorem concurrent_signers (signers : Nat → Signer) (p0 : J) (sigs0 : List (PStr × J)) (sched : List Nat) (ts0 : Nat → SLocal)
+    (h0 : ∀ i, (ts0 i).pc = 0) (hsame : ∀ i j, (signers i).key = (signers j).key → (signers i).entryOf p0 = (signers j).entryOf p0) :
+    (runSigners stepInPlace signers ⟨sigs0, p0⟩ ts0 sched).1.signed = p0 ∧
+    (∀ i, 3 ≤ ((runSigners stepInPlace signers ⟨sigs0, p0⟩ ts0 sched).2 i).pc →
+        dictGet (signers i).key (runSigners stepInPlace signers ⟨sigs0, p0⟩ ts0 sched).1.sigs = some ((signers i).entryOf p0)) ∧
+    (∀ x, (∀ j, (signers j).key ≠ x) → dictGet x (runSigners stepInPlace signers ⟨sigs0, p0⟩ ts0 sched).1.sigs = dictGet x sigs0) := by
+  have inv := SInv.run signers p0 sigs0 sched _ _ (SInv.init signers p0 sigs0 ts0 h0)
+  refine ⟨inv.signed, fun i hi => ?_, fun x hx => ?_⟩
+  · rcases inv.threads i with h | ⟨h, _⟩ | ⟨h, _⟩ | ⟨_, j, hj, hg⟩
+    · omega
+    · omega
+    · omega
+    · rw [hg, hsame j i hj]
+  · rcases inv.others x with h | ⟨j, _, hj, _⟩
+    · exact h
+    · exact absurd hj (hx j)
+
+/-- sequential signing by the signers numbered in `l`, one after the other -/
+def signSeq (signers : Nat → Signer) (p0 : J) (sigs0 : List (PStr × J)) (l : List Nat) : List (PStr × J) :=
+  l.foldl (fun e i => dictSet e (signers i).key ((signers i).entryOf p0)) sigs0
+
+theorem signSeq_get_notin (signers : Nat → Signer) (p0 : J) (x : PStr) : ∀ (l : List Nat) (sigs0 : List (PStr × J)),
+    (∀ i ∈ l, (signers i).key ≠ x) → dictGet x (signSeq signers p0 sigs0 l) = dictGet x sigs0
+  | [], _, _ => rfl
+  | i :: r, sigs0, h => by
+    simp only [signSeq, List.foldl_cons]
+    have := signSeq_get_notin signers p0 x r (dictSet sigs0 (signers i).key ((signers i).entryOf p0)) (fun j hj => h j (List.mem_cons_of_mem _ hj))
+    simp only [signSeq] at this
+    rw [this, dictGet_dictSet_other _ _ _ (fun e => h i List.mem_cons_self e.symm)]
+
+theorem signSeq_get_in (signers : Nat → Signer) (p0 : J) : ∀ (l : List Nat) (sigs0 : List (PStr × J)) (i : Nat), i ∈ l →
+    (∀ a ∈ l, ∀ b ∈ l, (signers a).key = (signers b).key → (signers a).entryOf p0 = (signers b).entryOf p0) →
+    dictGet (signers i).key (signSeq signers p0 sigs0 l) = some ((signers i).entryOf p0)
+  | [], _, _, h, _ => by cases h
+  | a :: r, sigs0, i, hi, hs => by
+    simp only [signSeq, List.foldl_cons]
+    by_cases hir : i ∈ r
+    · have := signSeq_get_in signers p0 r (dictSet sigs0 (signers a).key ((signers a).entryOf p0)) i hir
+        (fun x hx y hy => hs x (List.mem_cons_of_mem _ hx) y (List.mem_cons_of_mem _ hy))
+      simpa only [signSeq] using this
+    · have hia : i = a := by rcases List.mem_cons.mp hi with h | h; exact h; exact absurd h hir
+      subst hia
+      by_cases hk : ∃ b ∈ r, (signers b).key = (signers i).key
+      · obtain ⟨b, hb, hkb⟩ := hk
+        have := signSeq_get_in signers p0 r (dictSet sigs0 (signers i).key ((signers i).entryOf p0)) b hb
+          (fun x hx y hy => hs x (List.mem_cons_of_mem _ hx) y (List.mem_cons_of_mem _ hy))
+        simp only [signSeq] at this
+        rw [hkb] at this
+        rw [this, hs b (List.mem_cons_of_mem _ hb) i List.mem_cons_self hkb]
+      · have := signSeq_get_notin signers p0 (signers i).key r (dictSet sigs0 (signers i).key ((signers i).entryOf p0))
+          (fun b hb e => hk ⟨b, hb, e⟩)
+        simp only [signSeq] at this
+        rw [this, dictGet_dictSet_same]
+
+/-- **concurrent = sequential.**  Threads `0 … n-1` sign one envelope concurrently under any schedule that names only them; once all have finished, the
+shared signature map answers every lookup exactly like the map obtained by letting them sign one after the other (in any order: `sign_commute`). -/
+theorem concurrent_eq_sequential (signers : Nat → Signer) (p0 : J) (sigs0 : List (PStr × J)) (n : Nat) (sched : List Nat) (ts0 : Nat → SLocal)
+    (h0 : ∀ i, (ts0 i).pc = 0) (hsched : ∀ i ∈ sched, i < n)
+    (hsame : ∀ i j, (signers i).key = (signers j).key → (signers i).entryOf p0 = (signers j).entryOf p0)
+    (hfin : ∀ i, i < n → 3 ≤ ((runSigners stepInPlace signers ⟨sigs0, p0⟩ ts0 sched).2 i).pc) (x : PStr) :
+    dictGet x (runSigners stepInPlace signers ⟨sigs0, p0⟩ ts0 sched).1.sigs = dictGet x (signSeq signers p0 sigs0 (List.range n)) := by
+  have inv := SInv.run signers p0 sigs0 sched _ _ (SInv.init signers p0 sigs0 ts0 h0)
+  obtain ⟨_, hmine, _⟩ := concurrent_signers signers p0 sigs0 sched ts0 h0 hsame
+  by_cases hx : ∃ i, i < n ∧ (signers i).key = x
+  · obtain ⟨i, hi, rfl⟩ := hx
+    rw [hmine i (hfin i hi), signSeq_get_in signers p0 (List.range n) sigs0 i (List.mem_range.mpr hi) (fun a _ b _ => hsame a b)]
+  · rw [signSeq_get_notin signers p0 x (List.range n) sigs0 (fun i hi e => hx ⟨i, List.mem_range.mp hi, e⟩)]
+    rcases inv.others x with h | ⟨j, hj3, hj, _⟩
+    · exact h
+    · -- a finished signer filing under `x` would be one of the first `n`: the others never ran
+      exfalso
+      by_cases hjn : j < n
+      · exact hx ⟨j, hjn, hj⟩
+      · have := runSigners_untouched stepInPlace signers j sched ⟨sigs0, p0⟩ ts0 (fun hm => hjn (hsched j hm))
+        rw [this, h0 j] at hj3
+        omega
+
+/-- the copying variant (`new = dict(signable["signatures"]); …; signable["signatures"] = new`) is *not* safe: on the schedule in which the second signer
+copies the map before the first has stored its entry and assigns it back afterwards, the first signer's entry is gone although both have finished -/
+theorem copying_signers_lose_entry :
+    let a : Signer := { key := [97], entryOf := fun _ => .str [49] }
+    let b : Signer := { key := [98], entryOf := fun _ => .str [50] }
+    let fin := runSigners stepCopying (fun i => if i = 0 then a else b) ⟨[], .null⟩ (fun _ => {}) [0, 1, 0, 0, 0, 1, 1, 1]
+    (fin.2 0).pc = 4 ∧ (fin.2 1).pc = 4 ∧ dictKeys fin.1.sigs = [[98]] := by
+  decide
+
+-- the same two signers, same schedule, as the code has it: both entries are there
+example :
+    let a : Signer := { key := [97], entryOf := fun _ => .str [49] }
+    let b : Signer := { key := [98], entryOf := fun _ => .str [50] }
+    let fin := runSigners stepInPlace (fun i => if i = 0 then a else b) ⟨[], .null⟩ (fun _ => {}) [0, 1, 0, 0, 1, 1]
+    dictKeys fin.1.sigs = [[97], [98]] := by
+  decide
 
 -- non-vacuity: the laws are satisfiable (a toy scheme with 32-byte keys and 64-byte tags)
 def toyCrypto : Crypto where
